@@ -13,7 +13,10 @@ pub(crate) fn generate_normalization_ast_text<'schema, 'a>(
     let mut normalization_ast_text = "[\n".to_string();
     let mut is_empty = true;
     for item in selection_map {
-        is_empty = false;
+        // client pointers print nothing, here and in the query text
+        if !matches!(item, MergedServerSelection::ClientObjectSelectable(_)) {
+            is_empty = false;
+        }
         let s = generate_normalization_ast_node(item, indentation_level + 1);
         normalization_ast_text.push_str(&s);
     }
